@@ -28,7 +28,7 @@ from harness.props import ep_util as E
 from harness.props import c12 as C12
 
 PROP = "C14"
-LEAN_MODULES = ["LunaVerif.Props.C14"]
+LEAN_MODULES = ["LunaVerif.Props.C14"] + C12.REFINE_MODULES     # the cycle -> event refinement lemmas (toggles incl.)
 DRIVER = E.DRIVER
 REQUIRED_THEOREMS = ["in_toggle_advances_iff_acked", "out_toggle_advances_iff_acked_new_data",
                      "clear_halt_resets_exactly_named_endpoint", "clear_halt_next_packet_is_data0",
@@ -45,9 +45,10 @@ ASSUMPTIONS = [
     "the halt-clear strobe reaches an IN endpoint outside its own transaction (it is caused by an ACK on endpoint 0, "
     "which a token precedes): WAIT_FOR_DATA or WAIT_TO_SEND",
 ]
-PARTIAL = ("the transaction-level theorems are tied to the cycle-level ones by co-simulation only (no "
-           "cycle_refines_event lemma); the status endpoint's reset clause (fix 08e26ae) is proved on the event-level "
-           "model and checked by the device monitor, its cycle-level model (C17) does not have the halt-clear input yet")
+PARTIAL = ("the transaction-level theorems are tied to the cycle-level models by refinement lemmas for the status endpoint and "
+           "the stream IN endpoint (sig_cycle_refines_event/_run, in_cycle_refines_event/_run: toggle advance on the gated "
+           "ACK, halt-clear reset incl. WAIT_TO_SEND), for the stream OUT endpoint by co-simulation only (no "
+           "cycle_refines_event lemma for it yet)")
 
 I, O, P, S = U.PID_IN, U.PID_OUT, U.PID_PING, U.PID_SETUP
 D0, D1, ACK = U.PID_DATA0, U.PID_DATA1, U.PID_ACK
